@@ -38,4 +38,18 @@ CATALOGUE = {
     "f_c5": "currency(currency_code: JPY; width: short)",
 }
 
+# keys that reach a formatter key through a reference: `"f_r1": "$t(f_n3)"`, with text around it or through a chain; what they
+# render is the target's formatter (the text recorded here is the target's, the file holds the reference)
+REFS = {
+    # (targets whose value type also implements Display: if the formatter were lost on the way the project would still compile
+    # and render the raw value - an observable difference rather than a build failure of the driver)
+    "f_r1": ("f_n3", "$t(f_n3)"),
+    "f_r2": ("f_c2", "$t(f_c2)"),
+    "f_r3": ("f_c4", "$t(f_r3b)"),        # chain: f_r3 -> f_r3b -> f_c4
+    "f_r3b": ("f_c4", "$t(f_c4)"),
+    "f_r4": ("f_n2", "$t(f_n2)"),
+}
+for _k, (_t, _v) in REFS.items():
+    CATALOGUE[_k] = CATALOGUE[_t]
+
 FMT_LOCALES = ["en", "fr", "de", "ar", "zh-Hant-TW"]
